@@ -308,6 +308,7 @@ class Executor:
         m = re.match(r"^<([iu]\d+|[iu]size) as From<([iu]\d+|bool)>>::from$", callee)
         if m:
             return self.cast(args[0], m.group(1))
+        callee = re.sub(r"^(?:std|core)::option::", "", callee)
         m = re.match(r"^Option::<(.+?)>::unwrap_or$", callee)
         if m and args[0].kind == "option":
             o, d = args[0], args[1]
@@ -380,7 +381,20 @@ class Executor:
             if m:
                 v = self.operand(env, m.group(1))
                 taken = []
-                for arm in split_args(m.group(2)):
+                arms = split_args(m.group(2))
+                cm = re.match(r"^\(_ bv(\d+) (\d+)\)$", v.term or "") if v.kind == "int" else None
+                if cm:
+                    # concrete scrutinee: follow the one matching arm only
+                    val = int(cm.group(1))
+                    target = None
+                    for arm in arms:
+                        k, tgt = arm.split(": ")
+                        if k != "otherwise" and int(k) % (1 << int(cm.group(2))) == val:
+                            target = tgt
+                    if target is None:
+                        target = [a.split(": ")[1] for a in arms if a.startswith("otherwise")][0]
+                    return self.run(target, env, conds)
+                for arm in arms:
                     k, tgt = arm.split(": ")
                     if k == "otherwise":
                         c = "(and true %s)" % " ".join("(not %s)" % t for t in taken) if taken else "true"
